@@ -38,6 +38,7 @@ import YtkProofs.HeapPatchFold
 import YtkProofs.Decisions
 import YtkModel.Generated.Constants
 import YtkProofs.Decisions2
+import YtkProofs.FuncsLemmas
 
 namespace Ytk.C13
 
@@ -1279,5 +1280,53 @@ theorem nonvacuous_heap_patchOp_runs_fold :
   decide +kernel
 
 end heap
+
+end Ytk.C13
+
+/-! ## Translated functions (YtkModel/Generated/Funcs.lean, regenerated from the Go source on every
+    run by extract/translate.go): the nil-safe helpers of pipeline/utils.go.  The hand-written
+    pipeline model has no separate function for them (it works on `Option` values directly), so
+    their meaning is stated over core functions (`Option.getD`, `List.take`); `Go.Res.ok` = the
+    Go function does not panic.  An edit of the Go function changes the regenerated definition
+    and these stop checking. -/
+namespace Ytk.C13
+open Ytk.Generated
+
+theorem strTruncIfNeeded_generated_eq_model (s : String) (size : Nat) :
+    Funcs.strTruncIfNeeded s (size : Int)
+      = .ok (if s.toList.length ≤ size then s else String.ofList (s.toList.take size)) := by
+  unfold Funcs.strTruncIfNeeded
+  by_cases h : s.toList.length ≤ size
+  · have : Go.len s ≤ (size : Int) := by simp only [Go.len_eq]; omega
+    simp [h, this]
+  · have h1 : ¬ Go.len s ≤ (size : Int) := by simp only [Go.len_eq]; omega
+    have hs := Go.slice_nat s 0 size (by omega) (by omega)
+    simp only [Int.natCast_zero, List.drop_zero, Nat.sub_zero] at hs
+    simp [h, h1, hs]
+
+theorem strTruncIfNeeded_negative_size_panics : Funcs.strTruncIfNeeded "ab" (-1) = .panic := by decide
+
+theorem safeStrDeref_generated_eq_model (p : Option String) : Funcs.safeStrDeref p = .ok (p.getD "") := by
+  cases p <;> simp [Funcs.safeStrDeref, Go.deref]
+
+theorem safeBoolDeref_generated_eq_model (p : Option Bool) : Funcs.safeBoolDeref p = .ok (p.getD false) := by
+  cases p <;> simp [Funcs.safeBoolDeref, Go.deref]
+
+theorem safeStrListSize_generated_eq_model (p : Option (List String)) :
+    Funcs.safeStrListSize p = .ok (((p.getD []).length : Nat) : Int) := by
+  cases p <;> simp [Funcs.safeStrListSize, Go.deref, Go.lenL]
+
+theorem nonEmpty_generated_eq_model (p : Option String) :
+    Funcs.nonEmpty p = .ok (match p with | some s => decide (s ≠ "") | none => false) := by
+  cases p with
+  | none => simp [Funcs.nonEmpty]
+  | some s =>
+    have : (Go.len s > 0) ↔ s ≠ "" := by
+      have h := @String.length_eq_zero_iff s
+      simp only [Go.len]; constructor
+      · intro h1 e; subst e; simp at h1
+      · intro h1; have : s.length ≠ 0 := fun e => h1 (h.mp e)
+        omega
+    simp [Funcs.nonEmpty, Go.deref, this]
 
 end Ytk.C13
